@@ -16,6 +16,7 @@ import (
 	corev1 "k8s.io/api/core/v1"
 	networkv1 "k8s.io/api/networking/v1"
 	metav1 "k8s.io/apimachinery/pkg/apis/meta/v1"
+	utiliptables "tkestack.io/galaxy/pkg/utils/iptables"
 )
 
 // ---- the flow
@@ -591,5 +592,66 @@ func VerifC16_q_afterPodChange() {
 		_ = w.pm.UpdatePod(np, np)
 	}
 	verifReach("remote-pod-changed")
+	w.checkSemantics()
+}
+
+// vWindowIPT runs a second activity once, right before the at-th iptables call of the first.
+type vWindowIPT struct {
+	utiliptables.Interface
+	n, at int
+	second func()
+}
+
+func (v *vWindowIPT) window() {
+	v.n++
+	if v.n == v.at && v.second != nil {
+		f := v.second
+		v.second = nil
+		f()
+	}
+}
+func (v *vWindowIPT) EnsureChain(t utiliptables.Table, c utiliptables.Chain) (bool, error) {
+	v.window()
+	return v.Interface.EnsureChain(t, c)
+}
+func (v *vWindowIPT) EnsureRule(p utiliptables.RulePosition, t utiliptables.Table, c utiliptables.Chain, args ...string) (bool, error) {
+	v.window()
+	return v.Interface.EnsureRule(p, t, c, args...)
+}
+func (v *vWindowIPT) DeleteRule(t utiliptables.Table, c utiliptables.Chain, args ...string) error {
+	v.window()
+	return v.Interface.DeleteRule(t, c, args...)
+}
+func (v *vWindowIPT) RestoreAll(data []byte, fl utiliptables.FlushFlag, cn utiliptables.RestoreCountersFlag) error {
+	v.window()
+	return v.Interface.RestoreAll(data, fl, cn)
+}
+
+// BOUND: same cluster and flows; two policies np-a, np-b (each one of 5 shapes; thorough: 9) synchronised; a pod event for a pod of the node (update of web or db) is handled while, atomically inside any one window right before one of its iptables calls (symbolic window 0..6), the policy informer's goroutine handles a policy event that changes no policy but lists the policies in the other order (a full policy synchronisation); afterwards the verdicts must match the reference
+// ASSUME: C16: interference granularity = iptables calls of the pod event's handler; the second handler runs to completion inside one window
+func VerifC16_q_podEventDuringPolicyResync() {
+	w := vSemWorld()
+	a, b := vShapeOf("np-a"), vShapeOf("np-b")
+	w.c.policies = []*networkv1.NetworkPolicy{a, b}
+	w.syncAll()
+	win := &vWindowIPT{Interface: w.pm.iptableHandle, at: nondetInt(0, 6)}
+	win.second = func() {
+		w.c.policies = []*networkv1.NetworkPolicy{b, a}
+		_ = w.pm.UpdatePolicy(a, a)
+	}
+	w.pm.iptableHandle = win
+	var pod *corev1.Pod
+	name := nondetPick("web", "db")
+	for _, p := range w.c.pods {
+		if p.Name == name {
+			pod = p
+		}
+	}
+	_ = w.pm.UpdatePod(pod, pod)
+	w.pm.iptableHandle = win.Interface
+	if win.second != nil {
+		return // the pod event offered no such window
+	}
+	verifReach("policy-resync-inside-pod-event")
 	w.checkSemantics()
 }
